@@ -10,6 +10,15 @@ for d in refactors_ext/*/; do
     C-*) props="C05 C06 C07 C08 C10 C12 C13 C15" ;;
     D-*) props="C01 C05 C09 C11 C12 C14" ;;
     E-*) props="C17 C18 C19" ;;
+    F-*) props="C05 C06 C07 C08 C10 C12 C13" ;;
+    G-*) props="C01 C04 C05 C09 C11 C12" ;;
+    H-*) props="C01 C02 C03 C16 C12" ;;
+    I-*) props="C15 C18 C12" ;;
+    J-*) props="C17 C19" ;;
+    K-*) props="C01 C05 C08 C10 C12 C13" ;;
+    L-*) props="C01 C02 C03 C12" ;;
+    M-*) props="C05 C06 C07 C09 C12" ;;
+    N-*) props="C12 C15 C18 C19" ;;
     *) props="C01" ;;
   esac
   ./selftest/run_refactors.sh "$d/patch.diff" $props
